@@ -9,7 +9,7 @@ import numpy
 from hypothesis import strategies as st
 
 from pbt import files
-from pbt.core import call, draw_tz
+from pbt.core import call, draw_tz, workdir
 
 PROP = "C19"
 TECHNIQUE = "Hypothesis-generated event lists rendered by independent reference encoders into each text format, loaded through csep.load_catalog and compared with the generating list after the format's own quantisation (round trip / differential)"
@@ -78,7 +78,7 @@ def check_case(ctx, case):
         case = dict(case, recs=case["recs"] * case["repeat"])     # the same records many times over (large files)
         ctx.count("large_files:%s:%s_records" % (case["fmt"], "2000+" if len(case["recs"]) >= 2000 else "<2000"))
     want = expected(case)
-    with tempfile.TemporaryDirectory() as d:
+    with workdir() as d:
         path = os.path.join(d, "catalog." + {"csep-csv": "csv", "zmap": "dat", "jma-csv": "csv", "ingv_horus": "txt", "ndk": "ndk"}[case["fmt"]])
         write(case, path)
         if case.get("pathlib"):
